@@ -34,6 +34,7 @@ import (
 // ---- universe ----
 
 const nAddr = 7 // ids 1..nAddr are ordinary addresses, 0 is the x/paloma module account
+const nChain = 3 // remote chains 1..nChain (sale contracts)
 
 var denoms = []string{bondDenom, "uother"}
 
@@ -277,6 +278,16 @@ func (w *world) observe() obs {
 	o = append(o, row)
 	all, _ := e.paloma.AllLightNodeClientLicenses(ctx)
 	o = append(o, []*big.Int{bi(107), bi(int64(len(all)))})
+	// the authorised sale contract of every chain of the universe (x/skyway store)
+	for c := 1; c <= nChain; c++ {
+		if sc, err := e.skyway.LightNodeSaleContract(ctx, chainStr(c)); err == nil && sc != nil {
+			v, ok := new(big.Int).SetString(strings.TrimPrefix(sc.ContractAddress, "0x"), 16)
+			if !ok {
+				v = big.NewInt(-1)
+			}
+			o = append(o, []*big.Int{bi(108), bi(int64(c)), v})
+		}
+	}
 	return o
 }
 
@@ -640,6 +651,28 @@ type gen struct {
 	hostile bool
 	lic     map[key]bool // keys the generator believes carry a licence
 	funded  []int
+	// the last contract each chain was ever authorised with (also after governance dropped the chain)
+	everContract map[int]int
+}
+
+// genContracts: a new set of authorised sale contracts: any subset of the chains, sometimes the
+// same chain twice (last entry wins), mostly the usual contract
+func (g *gen) genContracts() op {
+	r := g.r
+	var ps [][2]int
+	for c := 1; c <= nChain; c++ {
+		if r.Intn(5) < 3 {
+			ps = append(ps, [2]int{c, 11 + r.Intn(8)/7})
+		}
+	}
+	if r.Intn(6) == 0 {
+		ps = append(ps, [2]int{1 + r.Intn(nChain), 11 + r.Intn(2)})
+	}
+	r.Shuffle(len(ps), func(i, j int) { ps[i], ps[j] = ps[j], ps[i] })
+	for _, p := range ps {
+		g.everContract[p[0]] = p[1]
+	}
+	return op{kind: "SetContracts", pairs: ps}
 }
 
 func (g *gen) anyID() int { return 1 + g.r.Intn(nAddr) }
@@ -721,11 +754,14 @@ func (g *gen) next() op {
 		return op{kind: "Auth", a: g.licKey()}
 	case x < 69:
 		o := op{kind: "Sale", chain: 1, contract: 11, b: g.clientKey()}
-		if r.Intn(8) == 0 {
-			o.chain = 2
+		if r.Intn(5) < 2 {
+			o.chain = 2 + r.Intn(nChain-1)
 		}
 		if r.Intn(8) == 0 {
 			o.contract = 12
+		}
+		if c, ok := g.everContract[o.chain]; ok && r.Intn(4) != 0 {
+			o.contract = c // the contract this chain is, or once was, authorised with
 		}
 		switch {
 		case g.hostile && r.Intn(4) == 0:
@@ -767,15 +803,8 @@ func (g *gen) next() op {
 			l[i] = g.fundedID()
 		}
 		return op{kind: "SetFunders", list: l}
-	case x < 91:
-		var ps [][2]int
-		if r.Intn(3) != 0 {
-			ps = append(ps, [2]int{1, 11})
-		}
-		for i := r.Intn(3); i > 0; i-- {
-			ps = append(ps, [2]int{1 + r.Intn(2), 11 + r.Intn(2)})
-		}
-		return op{kind: "SetContracts", pairs: ps}
+	case x < 93:
+		return g.genContracts()
 	default:
 		dts := []int64{1, 59, 3600, 86400 * 30, 86400 * 31, 86400 * 200, 86400 * 365, 86400 * 731}
 		return op{kind: "Tick", dt: dts[r.Intn(len(dts))] + int64(r.Intn(3))}
@@ -803,7 +832,7 @@ func runHistory(run *emit.Run, idx int, hostile bool, script *scripted) {
 		w.addrs[i] = addrOf(i)
 		w.ids[string(addrOf(i))] = i
 	}
-	g := &gen{r: r, w: w, hostile: hostile, lic: map[key]bool{}}
+	g := &gen{r: r, w: w, hostile: hostile, lic: map[key]bool{}, everContract: map[int]int{}}
 	// funding
 	var fund []string
 	if script != nil {
@@ -837,7 +866,12 @@ func runHistory(run *emit.Run, idx int, hostile bool, script *scripted) {
 	} else {
 		// configuration first, each piece sometimes left out
 		if r.Intn(6) != 0 {
-			ops = append(ops, op{kind: "SetContracts", pairs: [][2]int{{1, 11}}})
+			o := g.genContracts()
+			if r.Intn(3) != 0 {
+				o.pairs = append(o.pairs, [2]int{1, 11})
+				g.everContract[1] = 11
+			}
+			ops = append(ops, o)
 		}
 		if r.Intn(6) != 0 {
 			ops = append(ops, op{kind: "SetFeegranter", a: key{g.anyID(), false}})
@@ -1129,6 +1163,19 @@ func (w *world) oracleExt(run *emit.Run, o op, class int64, pr *probe, prev, cur
 					run.Violate("C18:raw-leftover-unexpected", "failed raw sale left a fee grant", replay)
 				}
 			}
+		}
+	}
+	// the authorised sale contracts are exactly those of the last governance decision
+	for c := 1; c <= nChain; c++ {
+		want, okw := w.contracts[c]
+		got := -1
+		if sc, err := w.e.skyway.LightNodeSaleContract(w.e.ctx, chainStr(c)); err == nil && sc != nil {
+			if v, ok := new(big.Int).SetString(strings.TrimPrefix(sc.ContractAddress, "0x"), 16); ok {
+				got = int(v.Int64())
+			}
+		}
+		if (okw && got != want) || (!okw && got != -1) {
+			run.Violate("C18:stale-sale-contract", fmt.Sprintf("chain %d: authorised contract is %d, governance last set %v (present %v)", c, got, want, okw), replay)
 		}
 	}
 	if o.kind == "Genesis" && !cur.eq(prev) {
